@@ -343,6 +343,15 @@ def run_result(rng, rec, log, scratch, idx):
                 fn = base / "input" / f"in{k}.nc"
                 save_dataset(scheme0.data[label], fn)
                 scheme0.data[label] = load_dataset(fn)
+            if rng.integers(2):
+                # a dataset the model does not use travels along in the scheme (a reference measurement): it is not part
+                # of the result, and nothing written into the result folder may point at where it lives
+                fn = base / "input" / "unused_reference.nc"
+                first = next(iter(scheme0.data.values()))
+                save_dataset(first, fn)
+                scheme0.data["unused_reference"] = load_dataset(fn)
+                ctx["unused_dataset_in_scheme"] = True
+                rec.count("schemes_with_an_unused_dataset")
         with time_limit(60):
             result = optimize(scheme0, verbose=False, raise_exception=True)
     except (Exception, CaseTimeout) as e:  # noqa
